@@ -14,7 +14,7 @@ import common
 import isogen
 
 LEVEL = "proof"
-CONE = ["Props/C03.v", "Proofs/LookupProofs.v", "Spec/SampleTable.v", "Model/Track.v"]
+CONE = ["Props/C03.v", "Props/C03Open.v", "Proofs/LookupProofs.v", "Proofs/FileLookup.v", "Spec/SampleTable.v", "Model/Track.v", "Model/Reader.v"]
 U32 = 1 << 32
 
 
@@ -124,7 +124,7 @@ def model_view(e):
 
 
 def check(rep):
-    proof_ok, details = common.proof_layer(rep, "C03", CONE, extra_targets=["theories/Extract/Extract.vo"])
+    proof_ok, details = common.proof_layer(rep, ["C03", "C03Open"], CONE, extra_targets=["theories/Extract/Extract.vo"])
     with common.Lock():
         hb_ok, hb_log = common.harness_build(["run"])
         ob_ok, ob_log = common.ocaml_build()
